@@ -1,6 +1,7 @@
 import PprofVerif.Lemmas.FilterName
 import PprofVerif.Lemmas.FilterCorollaries
 import PprofVerif.Lemmas.FilterShowFrom
+import PprofVerif.Lemmas.FilterShowFromOnly
 import PprofVerif.Model.TagFilter
 import PprofVerif.Lemmas.TagRange
 /-!
@@ -186,6 +187,20 @@ theorem showFrom_spec_partial (p : Profile) (R : Rx)
     (h : ∀ l ∈ p.locations, ShowFromWhole p R l) :
     (showFrom p (some R)).1.samples.map (view (showFrom p (some R)).1) = showFromSpec p (some R) :=
   showFrom_views_eq_spec p R h
+
+/-- UNCONDITIONAL (no hypothesis; holds inside the known finding
+`C06/show_from/inlined-location-below-highest-match` too): show_from only ever REMOVES, and only from
+the root side — a kept sample's location list is a non-empty leaf-side prefix of its list before with
+values and labels untouched, every location's line list is a leaf-side prefix of its lines before,
+and the kept samples are, in order, a sublist of the samples before. -/
+theorem showFrom_removes_only_root_side (p : Profile) (R : Rx) :
+    (∀ s s', showFromSample p R s = some s' →
+      s'.locationIDs <+: s.locationIDs ∧ s'.locationIDs ≠ [] ∧ s'.values = s.values ∧ s'.label = s.label ∧
+      s'.numLabel = s.numLabel ∧ s'.numUnit = s.numUnit) ∧
+    (∀ l, (showFromLoc p R l).1.lines <+: l.lines ∧ (showFromLoc p R l).1.id = l.id) ∧
+    List.Sublist ((showFrom p (some R)).1.samples.map (fun s => (s.values, s.label, s.numLabel)))
+      (p.samples.map (fun s => (s.values, s.label, s.numLabel))) :=
+  ⟨showFromSample_prefix p R, showFromLoc_prefix p R, showFrom_samples_sublist p R⟩
 
 /-- no show_from expression: nothing changes. -/
 theorem showFrom_none_id (p : Profile) : showFrom p none = (p, false) := rfl
